@@ -21,7 +21,8 @@ RULE = ('$-free scalars, flat and nested maps and lists (list-valued and empty-s
         '{$value: text, $decode: F} evaluates to the value, observed through json, yaml and toml output. Non-trivial = every judged case; '
         'distinct = distinct (value, stack, host).')
 ASSUMPTIONS = ['text form of floats and of non-scalars inside base64/sha256/join/prefix/tolist is not judged (values there are strings, integers, booleans)',
-               'strings containing $ are not generated']
+               'strings containing $ are not generated',
+               'a map carrying $decode, $value and $encode together is read as encode(decode(value)): $encode applies to what the rest of the map evaluates to']
 
 STR = ['title\n---\nbody', 'a\n...\nb', 'x\n+++\ny', 'k: v\n- x\n# c', 'two\nlines\n', 'a', 'b', 'x y', '', '1', 'true', 'null', 'ünï', 'a=b', 'k:v', '-', '--v', 'q"', "s'", 'a,b', '0x10', 'No', '~', 'line', '[x]', '{y}', '#c', '*s', '&a']
 FORMATS = ['json', 'yaml', 'toml', 'jsonl', 'json-pretty', 'yml']
